@@ -34,6 +34,14 @@ fn optional_keys(t: &Value) -> Vec<String> {
             _ => None,
         })
         .collect();
+    // optional parts that happen to be present everywhere in this tree (e.g. the next-row openings
+    // of an AIR that reads the next row) are optional all the same; a key that is not an Option in
+    // the proof type simply fails to deserialize as null and is dropped at the transport
+    for k in ["trace_next", "preprocessed_local", "preprocessed_next", "random", "permutation", "preprocessed"] {
+        if !all_paths_with_key(t, k).is_empty() {
+            ks.push(k.to_string());
+        }
+    }
     ks.sort();
     ks.dedup();
     ks
@@ -272,12 +280,34 @@ pub fn run_case<R: RecUni>(spec: &ShapeSpec, proof_tree: &Value, honest_common: 
     }
 }
 
+fn base_runs(tier: Tier) -> u64 {
+    tier.pick(12, 96)
+}
+
+/// Universe of run `idx`: the ordinary rotation, then C01's systematic custom-AIR sweep.
+fn universe_for(idx: u64, tier: Tier) -> &'static str {
+    if idx >= base_runs(tier) {
+        if (idx - base_runs(tier)) % 2 == 0 { "U-KB4-CUSTOM" } else { "U-KB4-CUSTOM-ZK" }
+    } else {
+        crate::rec::universe_of(idx)
+    }
+}
+
 fn shape_for(seed: u64, idx: u64, tier: Tier) -> ShapeSpec {
     let mut rng = Rng::new(seed, "C15", idx);
-    let mut spec = crate::with_rec_universe!(crate::rec::universe_of(idx), U, draw_shape::<U>(&mut rng, tier, None));
+    let mut spec = if idx >= base_runs(tier) {
+        crate::props::c01::sweep_shape(&mut rng, tier, (idx - base_runs(tier)) as usize).1
+    } else {
+        crate::with_rec_universe!(crate::rec::universe_of(idx), U, draw_shape::<U>(&mut rng, tier, None))
+    };
+    let sweep_log_n = (idx >= base_runs(tier)).then_some(spec.log_n);
     // keep structural enumeration tractable: few queries, small traces
     spec.fri.num_queries = spec.fri.num_queries.min(2);
     spec.log_n = spec.log_n.min(4).max(spec.fri.log_final_poly_len + 1);
+    if let Some(l) = sweep_log_n {
+        // the sweep selects the uni-STARK AIR kind through the height
+        spec.log_n = l;
+    }
     spec
 }
 
@@ -447,7 +477,7 @@ pub fn main(ctx: &Ctx) -> i32 {
         let idx: u64 = w.parse().unwrap_or(0);
         let from: usize = ctx.args.get("from").and_then(|x| x.parse().ok()).unwrap_or(0);
         let only: Option<usize> = ctx.args.get("only").and_then(|x| x.parse().ok());
-        return crate::with_rec_universe!(crate::rec::universe_of(idx), U, worker::<U>(ctx, idx, from, only));
+        return crate::with_rec_universe!(universe_for(idx, ctx.tier), U, worker::<U>(ctx, idx, from, only));
     }
     if let Some(path) = &ctx.replay {
         let body: Value = match std::fs::read_to_string(path).ok().and_then(|s| serde_json::from_str(&s).ok()) {
@@ -481,7 +511,7 @@ pub fn main(ctx: &Ctx) -> i32 {
         println!("replay did not reproduce");
         return 0;
     }
-    let runs: u64 = ctx.tier.pick(12, 96);
+    let runs: u64 = base_runs(ctx.tier) + crate::props::c01::SWEEP_RUNS;
     let res = crate::core::pool::run_jobs(runs, |idx| {
         let mut out = RunOut::default();
         drive(ctx, idx, &mut out);
